@@ -48,6 +48,8 @@ def step_kind(session):
 
 async def execute(net, hyg, plan):
     prefixes = plan.get("prefixes") or [""]
+    net.loop.exec_delay = plan.get("exec_delay", 0.0)
+    net.loop.exec_queue_delay = plan.get("exec_queue_delay", 0.0)
     w = W.World(net, tree=corpus_tree(prefixes), users=corpus_users, backend=plan.get("backend", "memory"),
                 **(plan.get("server_kwargs") or {}))
     try:
@@ -339,6 +341,14 @@ def gen_cases(tier, seed):
             for backend in ("memory", "pathio"):
                 cases.append({"kind": "enum", "action": action, "stride": 2 if tier == "quick" else 1, "phase": seed % 2,
                               "plan": {"scripts": [name], "inline": [sc], "seed": seed, "backend": backend}})
+    # the executor back end, every job of which takes a moment: the session ends (or the server closes) while a thread is busy
+    for name in (("retr_pasv", "stor_pasv") if tier == "quick" else ("retr_pasv", "stor_pasv", "appe", "retr_rest", "two_transfers", "mlsd")):
+        for action in ("rst", "server-close", "fin"):
+            cases.append({"kind": "enum", "action": action, "stride": 2 if tier == "quick" else 1, "phase": seed % 2,
+                          "plan": {"scripts": [name], "backend": "async", "exec_delay": 0.0007, "seed": seed}})
+            # ... and a busy pool: every job waits a moment in the queue before a thread takes it
+            cases.append({"kind": "enum", "action": action, "stride": 2 if tier == "quick" else 1, "phase": (seed + 1) % 2,
+                          "plan": {"scripts": [name], "backend": "async", "exec_queue_delay": 0.0006, "exec_delay": 0.0003, "seed": seed}})
     # a back end whose constructor raises for the first session(s): that session ends by this error, nothing of it stays
     for name in ("login_quit", "retr_pasv"):
         for n_fail in (1, 2):
